@@ -189,3 +189,7 @@ func Note(s string) {}
 
 // Stub records that an environment stub was used (listed in the evidence).
 func Stub(name string) {}
+
+// Or / And / Ite combine conditions without creating branches (one solver term instead of forked paths).
+func Or(a, b bool) bool  { return a || b }
+func And(a, b bool) bool { return a && b }
